@@ -57,16 +57,20 @@ def configs(tier):
                         'sym': 'spikes', 'id_dtypes': [idt] * P, 'time_dtypes': [tdt] * P,
                         'col_vectors': k == 1, 'sym_ids': not big, 'one_tsv': P >= 3})
     # mixed id dtypes across probes
+    out.append({'P': 2, 'spikes': [2, 1], 'nch': [2, 3], 'ntpl': [2, 1], 'nsw': 2, 'sym': 'spikes', 'twice': True,
+                'id_dtypes': ['int32', 'int32'], 'time_dtypes': ['uint64', 'uint64'], 'sym_ids': False})
     out.append({'P': 2, 'spikes': [1, 1], 'nch': [2, 2], 'ntpl': [1, 2], 'nsw': 2, 'sym': 'spikes',
                 'id_dtypes': ['int32', 'int64'], 'time_dtypes': ['uint64', 'uint64']})
     return out
 
 
-def run_merge(pkg, probes, out_dir='/out'):
+def run_merge(pkg, probes, out_dir='/out', twice=False):
     mg = pkg.load('phylib.io.merge')
     mg.load_model = lambda p: None
     merger = mg.Merger([vfs.VPath(pr.dir) for pr in probes], vfs.VPath(out_dir))
     merger.merge()
+    if twice:
+        merger.merge()        # merging again with the same object must give the same dataset
     return merger
 
 
@@ -80,7 +84,7 @@ def run_config(cfg, e):
         e.case_builder = lambda ev: mergelib.case_of(ev, cfg, probes)
         nlog = len(vfs.fs().log)
         try:
-            run_merge(pkg, probes)
+            run_merge(pkg, probes, twice=cfg.get('twice', False))
         except Exception as ex:
             e.fail('exception %r' % (ex,))
         fs = vfs.fs()
@@ -178,7 +182,10 @@ def replay(case):
         old = mg.load_model
         mg.load_model = lambda p: None
         try:
-            mg.Merger(rp.subdirs, rp.out).merge()
+            mrg = mg.Merger(rp.subdirs, rp.out)
+            mrg.merge()
+            if cfg.get('twice'):
+                mrg.merge()
         except Exception as ex:
             return 'merge raised %r' % (ex,)
         finally:
